@@ -401,6 +401,9 @@ pub struct Run {
     pub stats: Option<StatsLite>,
 }
 
+/// `CCfg::ctime` sentinel: configure the creation time with `Metadata::with_current_time()` instead of an explicit instant
+pub const CTIME_NOW: u64 = u64::MAX - 12_345;
+
 pub fn build_muxer<W: Write>(w: W, cfg: &CCfg) -> Result<Muxer<W>, MuxerError> {
     let mut b = MuxerBuilder::new(w);
     let rc = cfg.reconfig;
@@ -463,7 +466,9 @@ pub fn build_muxer<W: Write>(w: W, cfg: &CCfg) -> Result<Muxer<W>, MuxerError> {
                     }
                 }
                 1 => {
-                    if let Some(t) = cfg.ctime {
+                    if cfg.ctime == Some(CTIME_NOW) {
+                        m = m.with_current_time();
+                    } else if let Some(t) = cfg.ctime {
                         if rc & 1 != 0 || late {
                             m = m.with_creation_time(decoy_time(t));
                         }
